@@ -244,7 +244,7 @@ def leg_protocol(run, quick):
                                              data=b'x=1' if m == 'POST' else None)
                         ev, status, headers, body = drive(app, env)
                         tid += 1
-                        traces.append({'tid': tid, 'ev': [dict({'m': '-', 'statusOK': True, 'headersOK': True, 'excInfo': False,
+                        traces.append({'tid': tid, 'reraise': False, 'ev': [dict({'m': '-', 'statusOK': True, 'headersOK': True, 'excInfo': False,
                                                                 'n': 0, 'h': 0, 'bytesOK': True}, **e) for e in ev]})
                         meta[tid] = {'variant': variant, 'path': path, 'method': m, 'headers': hs, 'status': status}
                         # content-length agreement (a server would truncate / hang otherwise)
@@ -263,7 +263,7 @@ def leg_protocol(run, quick):
                         run.evaluations += 2
                         if err:
                             tid += 1
-                            traces.append({'tid': tid, 'ev': [{'a': 'validator_error', 'm': '-', 'statusOK': True,
+                            traces.append({'tid': tid, 'reraise': False, 'ev': [{'a': 'validator_error', 'm': '-', 'statusOK': True,
                                                               'headersOK': True, 'excInfo': False, 'n': 0, 'h': 0, 'bytesOK': True}]})
                             meta[tid] = {'variant': variant, 'path': path, 'method': m, 'headers': hs, 'validator': err}
     finally:
@@ -399,6 +399,43 @@ def leg_reroute(run):
                 run.nontrivial.add('reroute:%s:%s' % (path, m))
 
 
+def leg_repo_suite(run):
+    """traces of the repository's OWN test-suite: every request any test sends through an Application is recorded by a
+    pytest plugin that lives in /verif (harness/record_plugin.py) and validated against the protocol machine"""
+    import subprocess
+    import sys
+    out = os.path.join(common.WORK, 'reposuite-%d.ndjson' % os.getpid())
+    env = dict(os.environ, VERIF_RECORD_OUT=out, PYTHONPATH=os.path.dirname(os.path.abspath(__file__)) + os.pathsep + common.REPO,
+               PYTHONWARNINGS='ignore')
+    p = subprocess.run([sys.executable, '-m', 'pytest', '-q', '-p', 'no:cacheprovider', '-p', 'record_plugin', '-x'],
+                       cwd=common.REPO, env=env, stdout=subprocess.PIPE, stderr=subprocess.STDOUT, timeout=900)
+    tail = p.stdout.decode('utf8', 'replace').strip().splitlines()[-1:] or ['']
+    run.notes['repo_suite'] = {'pytest': tail[0][:200]}
+    if not os.path.exists(out):
+        run.notes['repo_suite']['skipped'] = 'no trace file produced'
+        return
+    traces = []
+    with open(out) as f:
+        for n, line in enumerate(f, 1):
+            t = json.loads(line)
+            traces.append({'tid': n, 'reraise': bool(t['reraise']), '_test': t['test'], '_path': t['path'],
+                           'ev': [dict({'m': '-', 'statusOK': True, 'headersOK': True, 'excInfo': False, 'n': 0, 'h': 0,
+                                        'bytesOK': True}, **{k: v for k, v in e.items() if k != 'cls'}) for e in t['ev']]})
+    os.remove(out)
+    acc, rej = tracecheck.validate(run, 'Wsgi_Trace(repo suite)', spec('Wsgi_Trace.tla'), cfgpath('Wsgi_Trace_prefix.cfg'),
+                                   cfgpath('Wsgi_Trace_diag.cfg'), [{k: v for k, v in t.items() if not k.startswith('_')} for t in traces])
+    run.traces += len(acc)
+    run.evaluations += len(traces)
+    run.notes['repo_suite'].update({'requests_recorded': len(traces), 'accepted': len(acc), 'rejected': len(rej)})
+    by = dict((t['tid'], t) for t in traces)
+    for t, pref in sorted(rej.items()):
+        tr = by[t]
+        e = tr['ev'][pref] if 0 <= pref < len(tr['ev']) else None
+        run.violation('repo-suite-trace:%s' % (e['a'] if e else 'incomplete'),
+                      'request %s made by %s: WSGI interaction rejected at event %s %r' % (tr['_path'], tr['_test'], pref, e),
+                      {'leg': 'L3', 'test': tr['_test'], 'path': tr['_path'], 'events': tr['ev']})
+
+
 def check(run):
     quick = run.tier == 'quick'
     run.rule = ('protocol: every scenario path (27) x 4 methods x header sets x 3 application variants, each recorded interaction '
@@ -416,6 +453,7 @@ def check(run):
     leg_protocol(run, quick)
     leg_wrappers(run, quick)
     leg_reroute(run)
+    leg_repo_suite(run)
 
 
 def replay(run, path):
